@@ -126,8 +126,9 @@ fn strat(_: &Ctx) -> BoxedStrategy<Case> {
                 let observed = !matches!(&steps[p].call, Call::Search { how: How::Stream | How::StreamWith, read: Some(_), .. });
                 let tail: Vec<Step> = steps.split_off(p + 1).into_iter().filter(|s| observed && !needs_server(&s.call)).collect();
                 steps.extend(tail);
-                // whether an unbind after a disconnect still finds the driver alive is a race in both APIs
-                unbind = false;
+                // whether an unbind after a disconnect still finds the driver alive is a race in both APIs - unless the
+                // failing call itself waited for the server: then the driver is gone in both, and unbind() must say so alike
+                unbind = unbind && observed;
             }
             Case { ctor, steps, unbind }
         })
